@@ -162,7 +162,8 @@ def classOk (ty cls : Nat) : Prop :=
   | some (.svcb _) => cls = 1
   | _ => True
 
-/-- RFC 1035 §4.1.3: NAME TYPE CLASS TTL RDLENGTH RDATA. For OPT (RFC 6891 §6.1.2) the owner is the root,
+/-- RFC 1035 §4.1.3: NAME TYPE CLASS TTL RDLENGTH RDATA. For OPT (RFC 6891 §6.1.2) the owner is the root
+(in any encoding of the root name: the decoder does not insist on the single octet 0),
 CLASS carries the payload size and TTL the extended RCODE / version / DO bit. -/
 inductive RRAt (buf : Bytes) (bk : Bool) : Nat → RR → Nat → Prop
   | normal {off e rdlen} {rr : RR} : rr.ty ≠ 41 → NameRefAt buf bk off rr.name e →
@@ -170,10 +171,11 @@ inductive RRAt (buf : Bytes) (bk : Bool) : Nat → RR → Nat → Prop
       BytesAt buf e (beBytes 2 rr.ty ++ beBytes 2 rr.cls ++ beBytes 4 rr.ttl ++ beBytes 2 rdlen) →
       RDataAt buf bk (e + 10 + rdlen) rr.ty (e + 10) rr.rd →
       RRAt buf bk off rr (e + 10 + rdlen)
-  | opt {off rdlen payload ext ver dnssec opts} : payload < 65536 → ext < 256 → ver < 256 → rdlen < 65536 →
-      BytesAt buf off ([0] ++ beBytes 2 41 ++ beBytes 2 payload ++ beBytes 4 (optTtlOf ext ver dnssec) ++ beBytes 2 rdlen) →
-      RDataAt buf bk (off + 11 + rdlen) 41 (off + 11) (.opt payload ext ver dnssec opts) →
-      RRAt buf bk off { name := [], ty := 41, cls := 0, ttl := 0, rd := .opt payload ext ver dnssec opts } (off + 11 + rdlen)
+  | opt {off e rdlen payload ext ver dnssec opts} : NameRefAt buf bk off [] e →
+      payload < 65536 → ext < 256 → ver < 256 → rdlen < 65536 →
+      BytesAt buf e (beBytes 2 41 ++ beBytes 2 payload ++ beBytes 4 (optTtlOf ext ver dnssec) ++ beBytes 2 rdlen) →
+      RDataAt buf bk (e + 10 + rdlen) 41 (e + 10) (.opt payload ext ver dnssec opts) →
+      RRAt buf bk off { name := [], ty := 41, cls := 0, ttl := 0, rd := .opt payload ext ver dnssec opts } (e + 10 + rdlen)
 
 inductive RRsAt (buf : Bytes) (bk : Bool) : Nat → List RR → Nat → Prop
   | nil {off} : RRsAt buf bk off [] off
